@@ -402,7 +402,7 @@ class C15:
                     bump(probes, 'interrupt_delivered')
                 # the interrupted call may raise; if it RETURNS NORMALLY its result must be right (DESIGN 3.6); every handle must be as it was
                 if out[0] == 'ok' and out[1] is not None:
-                    bump(probes)
+                    bump(probes, 'interrupted_call_returned_normally')
                     new_chain = h['chain'] + [[op['iv'], op['dir']]]
                     exp_cells, _mf, uncon = self._expected(docs[h['src']], h, new_chain, 'transpose')
                     try:
